@@ -139,9 +139,8 @@ class H5Group:
             # text: h5py refuses a string with an embedded NUL only when it
             # writes, i.e. after the dataset has been created or resized
             for val in np.ravel(np.asarray(data, dtype=object)):
-                if isinstance(val, str) and "\x00" in val:
-                    raise ValueError("Text values must not contain NUL "
-                                     "characters")
+                if isinstance(val, str):
+                    util.check_text_storable(val)
         shape = np.shape(data)
         if self.has_data(name):
             dset = self.get_dataset(name)
